@@ -115,13 +115,13 @@ pub fn run(ctx: &Ctx) -> Report {
                 profile.max_depth = 6;
                 profile.max_nodes = 40;
             }
-            let opts = HistoryOpts { profile: profile.clone(), len: rng.range(10, if sweep { 14 } else { 40 }) as usize, sweep, matrix: (i == 0 && w < 2) || (prop == "C12" && i % 8 == 0), api: match i % 5 { 3 => ApiKind::Bech32, 4 => ApiKind::Bech32m, _ => ApiKind::Std } };
+            let opts = HistoryOpts { profile: profile.clone(), len: rng.range(10, if sweep { 14 } else { 40 }) as usize, sweep, matrix: (i == 0 && w < 2) || (prop == "C12" && i % 8 == 0), api: match i % 5 { 3 => ApiKind::Bech32, 4 => ApiKind::Bech32m, _ => ApiKind::Std }, prestored: i % 4 == 1 };
             let (case, discs) = run_history(&mut rng, &opts, &mut rep, &prop);
             rep.bump("e1/histories");
             if w == 0 && i == 1 {
-                let mut short = Case { ops: case.ops.iter().skip(17).take(2).cloned().collect(), api: case.api };
+                let mut short = Case { ops: case.ops.iter().skip(17).take(2).cloned().collect(), api: case.api, prestored: case.prestored };
                 if short.ops.is_empty() {
-                    short = Case { ops: case.ops.iter().take(2).cloned().collect(), api: case.api };
+                    short = Case { ops: case.ops.iter().take(2).cloned().collect(), api: case.api, prestored: case.prestored };
                 }
                 rep.sample(json!(short));
             }
@@ -208,6 +208,7 @@ pub fn run(ctx: &Ctx) -> Report {
     rep.assume("error strings are never compared and never enter chain state (RUST_BACKTRACE cleared)");
     rep.assume("contracts observe (probe) at entry, before their own writes: a contract's view of its own in-flight writes through the querier is not asserted");
     rep.assume("messages for staking/distribution/ibc/gov/stargate are outside the chain model (see C14-C17)");
+    rep.assume("a transfer that would take the recipient's balance beyond the 128-bit range has to fail without effect; the simulator's panic in checked arithmetic counts as that failure");
     rep.assume("address codec per history: cosmwasm_std MockApi (3 of 5), the crate's MockApiBech32 / MockApiBech32m with prefix cosmwasm (1 of 5 each); addresses are now and then respelled (non-zero padding bits, upper case), which every codec must reject");
     let req: Vec<String> = match prop.as_str() {
         "C01" => vec!["e1/atomicity/err_state_unchanged_checks".into(), "e1/sweep/failure_points".into(), "e1/tx/multi/ok".into(), "e1/tx/multi/err".into(), "e1/tx/sudo/err".into(), "e1/tx/wasm_sudo/err".into(), "e1/tx/exec-helper/ok".into(), "e1/tx/mint/err".into(), "e1/opaque/err_state_unchanged_checks".into(), "e1/opaque/multi_equals_sequence_checks".into()],
